@@ -62,7 +62,9 @@ def _env():
             self.tag = tag
 
         def process_response(self, return_value):
-            return return_value + [self.tag]
+            if isinstance(return_value, list):
+                return return_value + [self.tag]
+            return [return_value, self.tag]          # a raw response object: wrapped by the first processor
 
     class HdrAdapter(conn_http.RequestAdapter):
         def __init__(self, name, val):
@@ -206,6 +208,15 @@ def replay_history(hist):
         r = _check_request(op.seen[-1], ret, exp, p0, h0)
         if r is not None:
             return '%s: %s' % (where, r)
+        # raw_response=True: the response object itself goes through the response processors
+        try:
+            raw = conn.get('/x', raw_response=True)
+        except Exception as ex:
+            return '%s: probe request with raw_response=True raised %s: %s' % (where, type(ex).__name__, str(ex)[:100])
+        tags_seen = raw[1:] if isinstance(raw, list) else []
+        obj = raw[0] if isinstance(raw, list) and raw else raw
+        if not isinstance(obj, _Resp) or tags_seen != list(exp['resp']):
+            return '%s: raw_response=True gives %r, expected the response object processed by %s' % (where, raw, list(exp['resp']))
         # the same through a request path without a leading '/'
         try:
             conn.get('x')
